@@ -110,8 +110,8 @@ class EnvironmentDataDescription(ComplexDop):
 
     def _resolve_snrefs(self, context: SnRefContext) -> None:
         # ODX 2.0 specifies environment data objects here, ODX 2.2
-        # uses references
-        if self.env_data_refs:
+        # uses references (which are resolved elsewhere)
+        if not self.env_data_refs:
             for ed in self.env_datas:
                 ed._resolve_snrefs(context)
 
